@@ -521,7 +521,9 @@ func lexInsideAction(l *lexer) stateFn {
 			l.emit(itemUnderscore)
 			return lexInsideAction
 		}
-		fallthrough // no space? must be the start of an identifier
+		// no space? must be the start of an identifier. The '_' is already consumed and
+		// peek() has replaced its width with that of the following rune, so no backup here.
+		return lexIdentifier
 	case isAlphaNumeric(r):
 		l.backup()
 		return lexIdentifier
